@@ -101,6 +101,7 @@ func c18SeqParts() []sup.Part {
 	r := sub
 	r.Profile = kv.Profile{kv.KWriteSub: 10, kv.KSubInsert: 6, kv.KGetSub: 8, kv.KSet: 4, kv.KDelete: 2, kv.KSetRaw: 1, kv.KIncr: 1, kv.KSetX: 2, kv.KUpdate: 2, kv.KWriteCas: 2, kv.KTouch: 1}
 	r.Steps = 100
+	r.TrailWS = 8 // documents as json.Encoder writes them (a newline after the closing brace)
 	return []sup.Part{
 		exhaustivePart("seq-exhaustive", sub),
 		randomPart("seq-random", 1000, 15000, r),
